@@ -740,7 +740,7 @@ Fixpoint auth_run (accepts : cred -> bool) (attempts : list cred) : list cred * 
          publickey : PublicKeyCallback (key not offered before) -> refused
          password  : PasswordCallback -> the backend's verdict
        accepted -> the loop ends;  refused -> authFailures++, failure reply, loop
-   [max] is a parameter of the loop so that the theorem can say what it depends on. *)
+   [max] is an argument of the loop so that the theorem can say what it depends on. *)
 Inductive areq := ANone | APub | APw (pw : bytes).
 (* what the client is told for one request: failure, success, or nothing at all because
    the proxy has ended the connection *)
